@@ -393,6 +393,7 @@ class GState:
             self._ensure_tool_is_inactive("Spindle already active.")
             self._set_tool_power(speed)
         else:
+            self._current_power_mode = PowerMode.OFF
             self._current_tool_power = 0
 
         self._is_tool_active = (mode != SpinMode.OFF)
@@ -416,6 +417,7 @@ class GState:
             self._ensure_tool_is_inactive("Power already active.")
             self._set_tool_power(power)
         else:
+            self._current_spin_mode = SpinMode.OFF
             self._current_tool_power = 0
 
         self._is_tool_active = (mode != PowerMode.OFF)
